@@ -460,7 +460,8 @@ Proof.
   - unfold ns_fail. destruct (r =? ns_ICMP); ns_simp.
     + destruct (ns_sq s); [destruct (ns_lg s)|]; reflexivity.
     + rewrite !ns_reltx_app, ns_drops_reltx, ns_nacks_reltx.
-      destruct (ns_sq s); cbn [ns_reltx flat_map app map]; rewrite ?app_nil_r;
+      destruct (ns_sq s) as [|n0 t0]; [|destruct (negb (ns_ncon n0))];
+      cbn [ns_reltx flat_map app map orb]; rewrite ?app_nil_r;
       destruct (filter ns_ncon (ns_dq s)); destruct (ns_lg s); cbn; rewrite ?app_nil_r; reflexivity.
 Qed.
 
@@ -993,64 +994,104 @@ Qed.
 Lemma ns_rel_open s s' b t : ns_rel s s' b t -> ns_open s = true -> ns_open s' = true.
 Proof. intros (A & _) H. congruence. Qed.
 
+(* the pieces of a disconnect's output *)
+Definition ns_ffirst (s : ns_st) (r : Z) : list ns_out :=
+  match ns_sq s with
+  | n :: _ => if (r =? ns_ICMP) || negb (ns_ncon n) then [NsNack r (ns_nmid n) true] else []
+  | [] => []
+  end.
+Definition ns_ffb (s : ns_st) (r : Z) : list ns_out :=
+  match ns_lg s with m :: _ => [NsNack r m true] | [] => [NsNack r 0 false] end.
+Definition ns_fmid (s : ns_st) (r : Z) : list ns_out :=
+  if match ns_sq s, filter ns_ncon (ns_dq s) with [], [] => false | _, _ => true end
+  then [] else ns_ffb s r.
+
+Lemma ns_fail_shape c s r : (r =? ns_ICMP) = false ->
+  ns_fail c s r = (ns_mkst false (ns_udp c) 0 [] [] [],
+                   ns_ffirst s r ++ ns_drops r (ns_dq s) ++ ns_fmid s r ++ ns_nacks r (ns_sq s)).
+Proof. intros E. unfold ns_fail, ns_ffirst, ns_fmid, ns_ffb. rewrite E. reflexivity. Qed.
+
+Lemma ns_fail_shape_icmp c s r : (r =? ns_ICMP) = true ->
+  ns_fail c s r = (s, match ns_sq s with [] => ns_ffb s r | _ :: _ => ns_ffirst s r end).
+Proof. intros E. unfold ns_fail, ns_ffirst, ns_ffb. rewrite E. reflexivity. Qed.
+
+Lemma ns_ffirst_props s r :
+  ns_txs (ns_ffirst s r) = [] /\ ns_res (ns_ffirst s r) = [] /\
+  (forall x, (ns_nack_count x (ns_ffirst s r) <= ns_cmn x (ns_sq s))%nat).
+Proof.
+  unfold ns_ffirst. destruct (ns_sq s) as [|n t]; [repeat split; intros; apply Nat.le_0_l|].
+  destruct ((r =? ns_ICMP) || negb (ns_ncon n)); [|repeat split; intros; apply Nat.le_0_l].
+  repeat split. intros x. unfold ns_nack_count, ns_cmn, ns_cm. cbn [filter map count_occ].
+  unfold ns_nmid. destruct (Z.eq_dec (ns_mid (ns_nmsg n)) x) as [E|E].
+  - rewrite E, Z.eqb_refl. cbn [length]. lia.
+  - destruct (ns_mid (ns_nmsg n) =? x) eqn:E'; [lia|]. cbn [length]. lia.
+Qed.
+
+Lemma ns_ffb_props s r : ns_txs (ns_ffb s r) = [] /\ ns_res (ns_ffb s r) = [].
+Proof. unfold ns_ffb. destruct (ns_lg s); split; reflexivity. Qed.
+
+Lemma ns_fmid_props s r :
+  ns_txs (ns_fmid s r) = [] /\ ns_res (ns_fmid s r) = [] /\
+  (forall q, In q (ns_dq s) -> ns_ncon q = true -> ns_fmid s r = []).
+Proof.
+  unfold ns_fmid. destruct (ns_ffb_props s r) as [B1 B2].
+  destruct (ns_sq s); destruct (filter ns_ncon (ns_dq s)) eqn:Ef; repeat split; try assumption;
+    try reflexivity.
+  intros q Hin Hc. exfalso.
+  assert (In q (filter ns_ncon (ns_dq s))) by (apply filter_In; split; assumption).
+  rewrite Ef in H. exact H.
+Qed.
+
+Lemma ns_fail_count c s r : ns_inv c s -> ns_budget s [] -> (r =? ns_ICMP) = false ->
+  forall q, In q (ns_dq s) -> ns_ncon q = true ->
+  ns_nack_count (ns_nmid q) (snd (ns_fail c s r)) = 1%nat.
+Proof.
+  intros Hi Hb Er q Hin Ec. rewrite (ns_fail_shape c s r Er). cbn [snd].
+  specialize (Hb (ns_nmid q)).
+  destruct (ns_nack_count_drops (ns_nmid q) r (ns_dq s)) as [D1 D2].
+  specialize (D2 q Hin Ec eq_refl).
+  pose proof (ns_nack_count_nacks (ns_nmid q) r (ns_sq s)) as N1.
+  destruct (ns_ffirst_props s r) as (_ & _ & F).
+  specialize (F (ns_nmid q)).
+  destruct (ns_fmid_props s r) as (_ & _ & M). rewrite (M q Hin Ec).
+  rewrite !ns_nack_count_app. cbn [ns_nack_count filter length] in *.
+  cbn [count_occ] in Hb. lia.
+Qed.
+
 Lemma ns_mon_step_fail c s r evs : ns_wf c -> ns_inv c s -> ns_open s = true ->
   ns_budget s evs ->
   ns_mon_step c (ns_abs s) (NsFail r) (snd (ns_step c s (NsFail r))) =
   Some (ns_abs (fst (ns_step c s (NsFail r)))).
 Proof.
-  intros Hwf Hi Ho Hb. unfold ns_step. rewrite Ho. cbn [negb]. unfold ns_fail.
-  set (first := match ns_sq s with n :: _ => [NsNack r (ns_nmid n) true] | [] => [] end).
-  set (fb := match ns_lg s with m :: _ => [NsNack r m true] | [] => [NsNack r 0 false] end).
-  assert (Ftx : ns_txs first = []) by (unfold first; destruct (ns_sq s); reflexivity).
-  assert (Fre : ns_res first = []) by (unfold first; destruct (ns_sq s); reflexivity).
-  assert (Btx : ns_txs fb = []) by (unfold fb; destruct (ns_lg s); reflexivity).
-  assert (Bre : ns_res fb = []) by (unfold fb; destruct (ns_lg s); reflexivity).
-  destruct (r =? ns_ICMP) eqn:Er; ns_simp.
-  - ns_mon_open Ho. rewrite Er.
-    assert (E : ns_txs (match first with [] => fb | _ :: _ => first end) = [] /\
-                ns_res (match first with [] => fb | _ :: _ => first end) = []).
-    { destruct first; split; assumption. }
-    destruct E as [E1 E2]. rewrite E1, E2. cbn [forallb negb].
-    (* r = ICMP <> TOO_MANY: nothing counts as given up *)
-    assert (G : ns_gaveup (match first with [] => fb | _ :: _ => first end) = []).
-    { apply Z.eqb_eq in Er. subst r. unfold first, fb.
-      destruct (ns_sq s); [destruct (ns_lg s)|]; reflexivity. }
-    rewrite G. cbn [fold_left]. unfold ns_abs. rewrite Ho. reflexivity.
-  - ns_mon_open Ho. rewrite Er.
-    set (o := first ++ ns_drops r (ns_dq s) ++
-              (if match first with [] => match filter ns_ncon (ns_dq s) with [] => false | _ => true end
-                  | _ => true end then [] else fb) ++ ns_nacks r (ns_sq s)).
+  intros Hwf Hi Ho Hb. unfold ns_step. rewrite Ho. cbn [negb].
+  destruct (r =? ns_ICMP) eqn:Er.
+  - rewrite (ns_fail_shape_icmp c s r Er). ns_simp.
+    ns_mon_open Ho. rewrite Er.
+    set (o := match ns_sq s with [] => ns_ffb s r | _ :: _ => ns_ffirst s r end).
+    assert (E : ns_txs o = [] /\ ns_res o = [] /\ ns_gaveup o = []).
+    { destruct (ns_ffirst_props s r) as (F1 & F2 & _). destruct (ns_ffb_props s r) as [B1 B2].
+      apply Z.eqb_eq in Er. subst r. unfold o, ns_ffirst, ns_ffb.
+      destruct (ns_sq s); [destruct (ns_lg s)|]; repeat split. }
+    destruct E as (E1 & E2 & E3). rewrite E1, E2, E3. cbn [forallb negb fold_left].
+    unfold ns_abs. rewrite Ho. reflexivity.
+  - rewrite (ns_fail_shape c s r Er). ns_simp. ns_mon_open Ho. rewrite Er.
+    set (o := ns_ffirst s r ++ ns_drops r (ns_dq s) ++ ns_fmid s r ++ ns_nacks r (ns_sq s)).
+    destruct (ns_ffirst_props s r) as (F1 & F2 & _).
+    destruct (ns_fmid_props s r) as (M1 & M2 & _).
     assert (Otx : ns_txs o = []).
-    { unfold o. rewrite !ns_txs_app, Ftx, ns_txs_drops, ns_txs_nacks.
-      destruct first; [destruct (filter ns_ncon (ns_dq s))|]; cbn; rewrite ?Btx; reflexivity. }
+    { unfold o. rewrite !ns_txs_app, F1, ns_txs_drops, M1, ns_txs_nacks. reflexivity. }
     assert (Ore : ns_res o = []).
-    { unfold o. rewrite !ns_res_app, Fre, ns_res_drops, ns_res_nacks.
-      destruct first; [destruct (filter ns_ncon (ns_dq s))|]; cbn; rewrite ?Bre; reflexivity. }
-    fold o. rewrite Otx, Ore. cbn [forallb negb].
+    { unfold o. rewrite !ns_res_app, F2, ns_res_drops, M2, ns_res_nacks. reflexivity. }
+    rewrite Otx, Ore. cbn [forallb negb].
     match goal with |- (if ?b then _ else _) = _ => assert (Hall : b = true) end.
     2: { rewrite Hall. reflexivity. }
     rewrite forallb_forall. intros p Hp. apply in_map_iff in Hp. destruct Hp as (q & Hq & Hin).
     subst p. destruct (ns_con (ns_nmsg q)) eqn:Ec; [|reflexivity]. cbn [negb orb].
-    apply Nat.eqb_eq. specialize (Hb (ns_nmid q)).
-    destruct (ns_nack_count_drops (ns_nmid q) r (ns_dq s)) as [D1 D2].
-    specialize (D2 q Hin Ec eq_refl).
-    pose proof (ns_nack_count_nacks (ns_nmid q) r (ns_sq s)) as N1.
-    unfold o. rewrite !ns_nack_count_app.
-    assert (F0 : ns_nack_count (ns_nmid q) first = 0%nat).
-    { unfold first. destruct (ns_sq s) as [|n t]; [reflexivity|].
-      unfold ns_nack_count. cbn [filter].
-      destruct (ns_nmid n =? ns_nmid q) eqn:En; [|reflexivity].
-      exfalso. unfold ns_cmn, ns_cm in Hb. cbn [map count_occ] in Hb. unfold ns_nmid in En.
-      destruct (Z.eq_dec (ns_mid (ns_nmsg n)) (ns_nmid q)); [|unfold ns_nmid in *; lia].
-      unfold ns_cmn, ns_cm in D1. lia. }
-    assert (B0 : ns_nack_count (ns_nmid q)
-                  (if match first with [] => match filter ns_ncon (ns_dq s) with [] => false | _ => true end
-                      | _ => true end then [] else fb) = 0%nat).
-    { destruct first; [|reflexivity].
-      destruct (filter ns_ncon (ns_dq s)) eqn:Ef; [|reflexivity].
-      exfalso. assert (In q (filter ns_ncon (ns_dq s))) by (apply filter_In; split; assumption).
-      rewrite Ef in H. exact H. }
-    unfold ns_nmid in *. rewrite F0, B0. unfold ns_cmn, ns_cm in *. lia.
+    apply Nat.eqb_eq.
+    assert (Hb0 : ns_budget s []).
+    { intros x. specialize (Hb x). cbn [ns_sub_mids count_occ]. lia. }
+    pose proof (ns_fail_count c s r Hi Hb0 Er q Hin Ec) as Hc.
+    rewrite (ns_fail_shape c s r Er) in Hc. exact Hc.
 Qed.
 
 Lemma ns_fold_rm_nil (l : list ns_msg) :
@@ -1240,35 +1281,6 @@ Proof.
   destruct E as (E1 & E2 & E3). rewrite E1, E2, E3. apply IH. exact Ho.
 Qed.
 
-Lemma ns_fail_count c s r : ns_inv c s -> ns_budget s [] -> (r =? ns_ICMP) = false ->
-  forall q, In q (ns_dq s) -> ns_ncon q = true ->
-  ns_nack_count (ns_nmid q) (snd (ns_fail c s r)) = 1%nat.
-Proof.
-  intros Hi Hb Er q Hin Ec. unfold ns_fail. rewrite Er. ns_simp.
-  set (first := match ns_sq s with n :: _ => [NsNack r (ns_nmid n) true] | [] => [] end).
-  set (fb := match ns_lg s with m :: _ => [NsNack r m true] | [] => [NsNack r 0 false] end).
-  specialize (Hb (ns_nmid q)).
-  destruct (ns_nack_count_drops (ns_nmid q) r (ns_dq s)) as [D1 D2].
-  specialize (D2 q Hin Ec eq_refl).
-  pose proof (ns_nack_count_nacks (ns_nmid q) r (ns_sq s)) as N1.
-  rewrite !ns_nack_count_app.
-  assert (F0 : ns_nack_count (ns_nmid q) first = 0%nat).
-  { unfold first. destruct (ns_sq s) as [|n t]; [reflexivity|].
-    unfold ns_nack_count. cbn [filter].
-    destruct (ns_nmid n =? ns_nmid q) eqn:En; [|reflexivity].
-    exfalso. unfold ns_cmn, ns_cm in Hb. cbn [map count_occ] in Hb. unfold ns_nmid in En.
-    destruct (Z.eq_dec (ns_mid (ns_nmsg n)) (ns_nmid q)); [|unfold ns_nmid in *; lia].
-    unfold ns_cmn, ns_cm in D1. lia. }
-  assert (B0 : ns_nack_count (ns_nmid q)
-                (if match first with [] => match filter ns_ncon (ns_dq s) with [] => false | _ => true end
-                    | _ => true end then [] else fb) = 0%nat).
-  { destruct first; [|reflexivity].
-    destruct (filter ns_ncon (ns_dq s)) eqn:Ef; [|reflexivity].
-    exfalso. assert (In q (filter ns_ncon (ns_dq s))) by (apply filter_In; split; assumption).
-    rewrite Ef in H. exact H. }
-  unfold ns_nmid in *. rewrite F0, B0. unfold ns_cmn, ns_cm in *. lia.
-Qed.
-
 (* the session fails: every held CON gets exactly one NACK, nothing held is transmitted, then
    or ever after *)
 Theorem ns_fail_nacks c est0 evs r : ns_wf c -> NoDup (ns_sub_mids evs) -> r <> ns_ICMP ->
@@ -1291,9 +1303,11 @@ Proof.
   split; [unfold ns_fail; rewrite Er; reflexivity|].
   split; [unfold ns_fail; rewrite Er; reflexivity|].
   assert (T : ns_txs (snd (ns_fail c s r)) = [] /\ ns_res (snd (ns_fail c s r)) = []).
-  { unfold ns_fail. rewrite Er. ns_simp.
-    rewrite !ns_txs_app, !ns_res_app, ns_txs_drops, ns_txs_nacks, ns_res_drops, ns_res_nacks.
-    destruct (ns_sq s); destruct (filter ns_ncon (ns_dq s)); destruct (ns_lg s); split; reflexivity. }
+  { rewrite (ns_fail_shape c s r Er). cbn [snd].
+    destruct (ns_ffirst_props s r) as (F1 & F2 & _).
+    destruct (ns_fmid_props s r) as (M1 & M2 & _).
+    rewrite !ns_txs_app, !ns_res_app, F1, F2, M1, M2, ns_txs_drops, ns_txs_nacks, ns_res_drops,
+      ns_res_nacks. split; reflexivity. }
   destruct T as [T1 T2]. split; [exact T1|]. split; [exact T2|].
   split; [intros q Hq Hc; apply ns_fail_count; assumption|].
   intros evs'. apply ns_closed_silent. unfold ns_fail. rewrite Er. reflexivity.
